@@ -43,7 +43,28 @@ func init() {
 			return one(st, Val{T: fmt.Sprintf("(bytes.eq %s %s)", a, b)}), true
 		},
 	}
+	goModels["github.com/cosmos/cosmos-sdk/types.KVStorePrefixIterator"] = func(ex *Exec, fr *Frame, st *State, com *ssa.CallCommon, args []Val, in ssa.Instruction) ([]Outcome, bool) {
+		return modelNewIterator(ex, st, com, args, false, 0)
+	}
+	goModels["github.com/cosmos/cosmos-sdk/types.KVStoreReversePrefixIterator"] = func(ex *Exec, fr *Frame, st *State, com *ssa.CallCommon, args []Val, in ssa.Instruction) ([]Outcome, bool) {
+		return modelNewIterator(ex, st, com, args, true, 0)
+	}
+	goModels["github.com/cosmos/cosmos-sdk/types.KVStorePrefixIteratorPaginated"] = func(ex *Exec, fr *Frame, st *State, com *ssa.CallCommon, args []Val, in ssa.Instruction) ([]Outcome, bool) {
+		page := ex.pure(args[2], com.Args[2].Type(), st)
+		limit := ex.pure(args[3], com.Args[3].Type(), st)
+		if page != "1" || !isIntLit(limit) {
+			unsupported("paginated iterator with page %s, limit %s (only page 1 with a constant limit is modelled)", page, limit)
+		}
+		n := 0
+		fmt.Sscan(limit, &n)
+		return modelNewIterator(ex, st, com, args, false, n)
+	}
 	goInvokeModels = map[string]goInvokeModel{
+		"Valid": modelIterValid,
+		"Next":  modelIterNext,
+		"Key":   modelIterKey,
+		"Value": modelIterValue,
+		"Close": modelIterClose,
 		"Get":           modelStoreGet,
 		"Has":           modelStoreHas,
 		"Set":           modelStoreSet,
@@ -128,6 +149,7 @@ func modelStoreSet(ex *Exec, fr *Frame, st *State, com *ssa.CallCommon, recv Val
 	if ex.ct != nil && ex.ct.Pure {
 		ex.addObl("frame", "readonly-store-write", ex.ct.Props, st, "false", ex.pos(in), "pure function writes the store")
 	}
+	ex.noOpenIterator(st, recv.Store, in)
 	k := ex.keyTerm(recv.Store, args[0], com.Args[0].Type(), st)
 	v := ex.pure(args[1], com.Args[1].Type(), st)
 	ex.mayPanic(st, fmt.Sprintf("(not (sl.nil %s))", v), "store-set-nil-value", in)
@@ -143,6 +165,7 @@ func modelStoreDelete(ex *Exec, fr *Frame, st *State, com *ssa.CallCommon, recv 
 	if ex.ct != nil && ex.ct.Pure {
 		ex.addObl("frame", "readonly-store-write", ex.ct.Props, st, "false", ex.pos(in), "pure function writes the store")
 	}
+	ex.noOpenIterator(st, recv.Store, in)
 	k := ex.keyTerm(recv.Store, args[0], com.Args[0].Type(), st)
 	st.ghost[recv.Store] = fmt.Sprintf("(store %s %s nilBytes)", st.ghost[recv.Store], k)
 	st.wrote = true
@@ -193,4 +216,142 @@ func modelUnmarshal(ex *Exec, fr *Frame, st *State, com *ssa.CallCommon, recv Va
 	st.assume(ex.u.WellTyped(pt.Elem(), t, 0))
 	ex.store(p.P, t, st, "unmarshal")
 	return one(st), true
+}
+
+// ---------------------------------------------------------------- store iterators (assumed semantics)
+//
+// An iterator created on store S under prefix P visits, in ascending (or descending) key order, exactly
+// the keys k with S[k] present and inprefix(P, k).  The position is described by first/next conditions
+// over the abstract keys; nothing about the number of elements is assumed.
+
+func (ex *Exec) iterFirst(kd KVDecl, it *IterState, k, v string) []string {
+	lt := func(a, b string) string {
+		if it.Reverse {
+			return fmt.Sprintf("(%s %s %s)", kd.KeyLt, b, a)
+		}
+		return fmt.Sprintf("(%s %s %s)", kd.KeyLt, a, b)
+	}
+	present := func(x string) string {
+		return fmt.Sprintf("(and (not (sl.nil (select %s %s))) (%s %s %s))", it.Snapshot, x, kd.InPrefix, it.Prefix, x)
+	}
+	return []string{
+		implies(v, present(k)),
+		fmt.Sprintf("(forall ((k!i %s)) (! (=> %s (and %s (not %s))) :pattern ((select %s k!i))))", kd.KeySort, present("k!i"), v, lt("k!i", k), it.Snapshot),
+	}
+}
+
+func (ex *Exec) iterNext(kd KVDecl, it *IterState, k0, k1, v1 string) []string {
+	lt := func(a, b string) string {
+		if it.Reverse {
+			return fmt.Sprintf("(%s %s %s)", kd.KeyLt, b, a)
+		}
+		return fmt.Sprintf("(%s %s %s)", kd.KeyLt, a, b)
+	}
+	present := func(x string) string {
+		return fmt.Sprintf("(and (not (sl.nil (select %s %s))) (%s %s %s))", it.Snapshot, x, kd.InPrefix, it.Prefix, x)
+	}
+	return []string{
+		implies(v1, and(present(k1), lt(k0, k1))),
+		fmt.Sprintf("(forall ((k!i %s)) (! (=> (and %s %s) (and %s (not %s))) :pattern ((select %s k!i))))", kd.KeySort, present("k!i"), lt(k0, "k!i"), v1, lt("k!i", k1), it.Snapshot),
+	}
+}
+
+func modelNewIterator(ex *Exec, st *State, com *ssa.CallCommon, args []Val, reverse bool, limit int) ([]Outcome, bool) {
+	if args[0].Store == "" {
+		return nil, false
+	}
+	kd := ex.kvdecl(args[0].Store)
+	if kd.PrefixFn == "" {
+		unsupported("store %s has no prefix abstraction (kvstore directive)", kd.Ghost)
+	}
+	ex.models["store iterator semantics: ascending/descending visit of exactly the present keys under the prefix (cosmos-sdk store), snapshot at creation"] = true
+	pfx := fmt.Sprintf("(%s %s)", kd.PrefixFn, ex.pure(args[1], com.Args[1].Type(), st))
+	it := &IterState{Store: kd.Ghost, Snapshot: st.ghost[kd.Ghost], Prefix: pfx, Reverse: reverse, Limit: limit, Consumed: 1}
+	it.Cur = ex.u.Fresh("it.key", kd.KeySort)
+	it.Valid = ex.u.Fresh("it.valid", "Bool")
+	for _, f := range ex.iterFirst(kd, it, it.Cur, it.Valid) {
+		st.assume(f)
+	}
+	if st.iters == nil {
+		st.iters = map[int]*IterState{}
+	}
+	id := len(st.iters) + 1
+	st.iters[id] = it
+	return one(st, Val{It: id}), true
+}
+
+func iterOf(st *State, v Val) *IterState {
+	if v.It == 0 || st.iters == nil {
+		return nil
+	}
+	return st.iters[v.It]
+}
+
+func modelIterValid(ex *Exec, fr *Frame, st *State, com *ssa.CallCommon, recv Val, args []Val, in ssa.Instruction) ([]Outcome, bool) {
+	it := iterOf(st, recv)
+	if it == nil {
+		return nil, false
+	}
+	return one(st, Val{T: it.Valid}), true
+}
+
+func modelIterNext(ex *Exec, fr *Frame, st *State, com *ssa.CallCommon, recv Val, args []Val, in ssa.Instruction) ([]Outcome, bool) {
+	it := iterOf(st, recv)
+	if it == nil {
+		return nil, false
+	}
+	kd := ex.kvdecl(it.Store)
+	ex.mayPanic(st, it.Valid, "iterator-next-when-invalid", in)
+	if it.Limit > 0 && it.Consumed >= it.Limit {
+		it.Valid = "false"
+		return one(st), true
+	}
+	k1 := ex.u.Fresh("it.key", kd.KeySort)
+	v1 := ex.u.Fresh("it.valid", "Bool")
+	for _, f := range ex.iterNext(kd, it, it.Cur, k1, v1) {
+		st.assume(f)
+	}
+	it.Cur, it.Valid = k1, v1
+	it.Consumed++
+	return one(st), true
+}
+
+func modelIterKey(ex *Exec, fr *Frame, st *State, com *ssa.CallCommon, recv Val, args []Val, in ssa.Instruction) ([]Outcome, bool) {
+	it := iterOf(st, recv)
+	if it == nil {
+		return nil, false
+	}
+	kd := ex.kvdecl(it.Store)
+	ex.mayPanic(st, it.Valid, "iterator-key-when-invalid", in)
+	b := ex.u.Fresh("it.keybytes", "(Slice Int)")
+	st.assume(fmt.Sprintf("(= (%s %s) %s)", kd.KeyFn, b, it.Cur))
+	st.assume(fmt.Sprintf("(not (sl.nil %s))", b))
+	return one(st, Val{T: b}), true
+}
+
+func modelIterValue(ex *Exec, fr *Frame, st *State, com *ssa.CallCommon, recv Val, args []Val, in ssa.Instruction) ([]Outcome, bool) {
+	it := iterOf(st, recv)
+	if it == nil {
+		return nil, false
+	}
+	ex.mayPanic(st, it.Valid, "iterator-value-when-invalid", in)
+	return one(st, Val{T: fmt.Sprintf("(select %s %s)", it.Snapshot, it.Cur)}), true
+}
+
+func modelIterClose(ex *Exec, fr *Frame, st *State, com *ssa.CallCommon, recv Val, args []Val, in ssa.Instruction) ([]Outcome, bool) {
+	it := iterOf(st, recv)
+	if it == nil {
+		return nil, false
+	}
+	it.Closed = true
+	return one(st, Val{T: "iface.nil"}), true
+}
+
+// noOpenIterator: writing to a store while one of its iterators is open is outside the iterator contract.
+func (ex *Exec) noOpenIterator(st *State, store string, in ssa.Instruction) {
+	for _, it := range st.iters {
+		if it.Store == store && !it.Closed {
+			ex.addObl("frame", "write-during-iteration", ex.propsOf(), st, "false", ex.pos(in), "store write while an iterator over the same store is open")
+		}
+	}
 }
